@@ -238,6 +238,10 @@ def check_history(case, rec):
     sv_state = {}       # (model, target) -> last request whose parameters were set on that object
     for r in out:
         step = steps[r["i"]]
+        if r.get("clobbered"):
+            j, op_j = r["clobbered"][0]
+            rec.fail("result-overwritten:" + op_j, "the result returned by step %d (%s) changed when step %d (%s) ran"
+                     % (j, op_j, r["i"], r.get("op")))
         if step.get("op") == "sasview" and not r.get("repeat_of"):
             tgt = r.get("target", "a")
             if step.get("clone"):
